@@ -629,6 +629,12 @@ func (h kvHandler) handleKvRawScan(req *kvrpcpb.RawScanRequest) *kvrpcpb.RawScan
 		)
 	}
 
+	if req.KeyOnly {
+		for i := range pairs {
+			pairs[i].Value = nil
+		}
+	}
+
 	return &kvrpcpb.RawScanResponse{
 		Kvs: convertToPbPairs(pairs),
 	}
